@@ -13,7 +13,9 @@ RULE = ('Hypothesis-generated World histories weighted towards delete_entity(e) 
         'frame fails, then the next three frames must complete and no query may raise; the rest of such a history '
         'is not modelled); outside process() armed callbacks '
         'may issue operations as well (e.g. an on_remove running during an immediate deletion that deferred-'
-        'deletes its own entity). Oracle: reference model of attached/pending. Non-trivial = a deferred delete with '
+        'deletes its own entity). Oracle: reference model of attached/pending. '
+        'A small share of the histories is AMPLIFIED (one operation, each operation - create x 70, delete x 70, process - or the whole history repeated). '
+        'Non-trivial = a deferred delete with '
         '>= 1 intervening operation on the same id before process, or a legitimately failed frame followed by '
         'further frames. Distinct = sha1 of canonical JSON.')
 ASSUMPTIONS = [
